@@ -353,9 +353,8 @@ theorem unlink_seg (d : Disk) (h : Clean d) (fs : List WalFile) :
     simp only [applyEv]
     rw [eraseW_head f fs hs]
 
-theorem phase3_seg (d : Disk) (h : Clean d) (o : Opts) (d' : Disk) (s : State) (h3 : phase3 d o = .ok (d', s))
-    (junks : List Layer) :
-    Seg (Good3 d) (fun x => x = d) (phase3Events d junks) (fun x => x = d') := by
+theorem phase3_seg (d : Disk) (h : Clean d) (o : Opts) (d' : Disk) (s : State) (h3 : phase3 d o = .ok (d', s)) :
+    Seg (Good3 d) (fun x => x = d) (phase3Events d) (fun x => x = d') := by
   have hread : walReadable d.wal = true := h.ok.walRead
   have hcomps := h.nocomp
   -- the disk phase 3 returns
@@ -431,9 +430,9 @@ theorem phase3_seg (d : Disk) (h : Clean d) (o : Opts) (d' : Disk) (s : State) (
           simp [this]
   have hB : Seg (Good3 d) (fun x => x = { d with walDir := true })
       (if (walMuts d.wal).isEmpty = true then []
-        else [Ev.tblMkdir (maxGen (tblsOf d.tables) + 1), Ev.tblProgress (maxGen (tblsOf d.tables) + 1)] ++
-              junkEvs (maxGen (tblsOf d.tables) + 1) (applyMuts [] (walMuts d.wal)) junks ++
-              [Ev.tblComplete (maxGen (tblsOf d.tables) + 1) (applyMuts [] (walMuts d.wal))])
+        else [Ev.tblMkdir (maxGen (tblsOf d.tables) + 1), Ev.tblLoadable (maxGen (tblsOf d.tables) + 1) [],
+              Ev.tblMetaCreate (maxGen (tblsOf d.tables) + 1), Ev.tblProgress (maxGen (tblsOf d.tables) + 1),
+              Ev.tblComplete (maxGen (tblsOf d.tables) + 1) (applyMuts [] (walMuts d.wal))])
       (fun x => x = { tables := tablesB d, walDir := true, wal := d.wal, comps := [] }) := by
     split
     · rename_i he
@@ -447,56 +446,44 @@ theorem phase3_seg (d : Disk) (h : Clean d) (o : Opts) (d' : Disk) (s : State) (
           d.tables ++ [(maxGen (tblsOf d.tables) + 1, .part false)] := insertT_last _ _ _ (keys_lt_of_clean h)
       have habs : ∀ p ∈ d.tables, p.1 ≠ maxGen (tblsOf d.tables) + 1 := by
         intro p hp; have := keys_lt_of_clean h p hp; omega
-      -- the unfinished table: not loadable, or loadable and showing keys of the replayed store only
-      let PJ : Disk → Prop := fun x => ∃ t : TableDir,
-        (t = .part false ∨ ∃ J, t = .complete J ∧ ∀ k, Layer.get J k ≠ none → Layer.get (applyMuts [] (walMuts d.wal)) k ≠ none) ∧
-        x = { d with walDir := true, tables := d.tables ++ [(maxGen (tblsOf d.tables) + 1, t)] }
-      have hupd : ∀ (t : TableDir) (c : Layer),
-          updT (maxGen (tblsOf d.tables) + 1) (fun _ => TableDir.complete c) (d.tables ++ [(maxGen (tblsOf d.tables) + 1, t)]) =
-            d.tables ++ [(maxGen (tblsOf d.tables) + 1, .complete c)] := by
-        intro t c
+      have hupd : ∀ (t t' : TableDir),
+          updT (maxGen (tblsOf d.tables) + 1) (fun _ => t') (d.tables ++ [(maxGen (tblsOf d.tables) + 1, t)]) =
+            d.tables ++ [(maxGen (tblsOf d.tables) + 1, t')] := by
+        intro t t'
         rw [updT_append, updT_id_of_absent _ _ _ habs]
         simp [updT]
-      have s12 : Seg (Good3 d) (fun x => x = { d with walDir := true })
-          [Ev.tblMkdir (maxGen (tblsOf d.tables) + 1), Ev.tblProgress (maxGen (tblsOf d.tables) + 1)] PJ := by
-        refine Seg.cons (Q := fun x => x = { d with walDir := true, tables := d.tables ++ [(maxGen (tblsOf d.tables) + 1, .part false)] }) ?_
-          (Seg.cons (Q := PJ) ?_ (Seg.nil ?_))
-        · intro x hx; subst hx
-          refine ⟨diskOk_logical_congr rfl rfl rfl (by intro hf; cases hf) h.ok, ?_⟩
-          simp only [applyEv]
-          rw [hins]
-        · intro x hx
-          exact ⟨hx ▸ hgoodB (.part false) (Or.inl rfl), ⟨.part false, Or.inl rfl, by subst hx; rfl⟩⟩
-        · intro x ⟨t, ht, hx⟩
-          exact ⟨hx ▸ hgoodB t ht, ⟨t, ht, hx⟩⟩
-      have sJ : Seg (Good3 d) PJ (junkEvs (maxGen (tblsOf d.tables) + 1) (applyMuts [] (walMuts d.wal)) junks) PJ := by
-        unfold junkEvs
-        induction junks with
-        | nil =>
-          apply Seg.nil
-          intro x ⟨t, ht, hx⟩
-          exact ⟨hx ▸ hgoodB t ht, ⟨t, ht, hx⟩⟩
-        | cons j js ih =>
-          rw [List.map_cons]
-          refine Seg.cons (Q := PJ) ?_ ih
-          intro x ⟨t, ht, hx⟩
-          refine ⟨hx ▸ hgoodB t ht, ⟨.complete (restrictTo (applyMuts [] (walMuts d.wal)) j), Or.inr ⟨_, rfl, restrict_get _ j⟩, ?_⟩⟩
-          subst hx
-          simp only [applyEv]
-          rw [hupd]
-      have sC : Seg (Good3 d) PJ [Ev.tblComplete (maxGen (tblsOf d.tables) + 1) (applyMuts [] (walMuts d.wal))]
-          (fun x => x = { tables := tablesB d, walDir := true, wal := d.wal, comps := [] }) := by
-        refine Seg.cons (Q := fun x => x = { tables := tablesB d, walDir := true, wal := d.wal, comps := [] }) ?_ (Seg.nil ?_)
-        · intro x ⟨t, ht, hx⟩
-          refine ⟨hx ▸ hgoodB t ht, ?_⟩
-          subst hx
-          simp only [applyEv]
-          rw [hupd]
-          unfold tablesB
-          rw [if_neg he, hcomps]
-        · intro x hx; subst hx
-          exact ⟨flushed_good d h [] d.wal rfl true (by simp), rfl⟩
-      exact Seg.append (Seg.append s12 sJ) sC
+      have hpart := hgoodB (.part false) (Or.inl rfl)
+      have hempty := hgoodB (.complete []) (Or.inr ⟨[], rfl, fun k hk => absurd (layerGet_nil k) hk⟩)
+      refine Seg.cons (Q := fun x => x = { d with walDir := true, tables := d.tables ++ [(maxGen (tblsOf d.tables) + 1, .part false)] }) ?_
+        (Seg.cons (Q := fun x => x = { d with walDir := true, tables := d.tables ++ [(maxGen (tblsOf d.tables) + 1, .complete [])] }) ?_
+          (Seg.cons (Q := fun x => x = { d with walDir := true, tables := d.tables ++ [(maxGen (tblsOf d.tables) + 1, .part false)] }) ?_
+            (Seg.cons (Q := fun x => x = { d with walDir := true, tables := d.tables ++ [(maxGen (tblsOf d.tables) + 1, .part false)] }) ?_
+              (Seg.cons (Q := fun x => x = { tables := tablesB d, walDir := true, wal := d.wal, comps := [] }) ?_ (Seg.nil ?_)))))
+      · intro x hx; subst hx
+        refine ⟨diskOk_logical_congr rfl rfl rfl (by intro hf; cases hf) h.ok, ?_⟩
+        simp only [applyEv]
+        rw [hins]
+      · intro x hx
+        refine ⟨hx ▸ hpart, ?_⟩
+        subst hx
+        simp only [applyEv]
+        rw [hupd]
+      · intro x hx
+        refine ⟨hx ▸ hempty, ?_⟩
+        subst hx
+        simp only [applyEv]
+        rw [hupd]
+      · intro x hx
+        exact ⟨hx ▸ hpart, by subst hx; rfl⟩
+      · intro x hx
+        refine ⟨hx ▸ hpart, ?_⟩
+        subst hx
+        simp only [applyEv]
+        rw [hupd]
+        unfold tablesB
+        rw [if_neg he, hcomps]
+      · intro x hx; subst hx
+        exact ⟨flushed_good d h [] d.wal rfl true (by simp), rfl⟩
   -- stage C: the log files go, oldest first
   have hC := unlink_seg d h d.wal [] rfl
   -- stage D: the directory is removed and re-created with a fresh file
@@ -531,31 +518,225 @@ theorem phase3_seg (d : Disk) (h : Clean d) (o : Opts) (d' : Disk) (s : State) (
       exact hg true _ rfl (by simp [freshWal]) rfl (by simp)
   exact Seg.append hA (Seg.append (Seg.append hB hC) hD)
 
+/-! ## `RemoveAll` orders that unlink the metadata first -/
+
+theorem tablesGet_upd_hidden (g : Nat) (J : Layer) (k : Key) (hJ : Layer.get J k = none) (ts : List (Nat × TableDir))
+    (hp : ∀ p ∈ ts, p.1 = g → isComplete p.2 = false) :
+    tablesGet (tblsOf (updT g (fun _ => TableDir.complete J) ts)) k = tablesGet (tblsOf ts) k := by
+  induction ts with
+  | nil => rfl
+  | cons p r ih =>
+    have ih := ih (fun q hq => hp q (List.mem_cons_of_mem _ hq))
+    have hc : updT g (fun _ => TableDir.complete J) (p :: r) =
+        (if p.1 == g then (p.1, TableDir.complete J) else p) :: updT g (fun _ => TableDir.complete J) r := rfl
+    rw [hc]
+    obtain ⟨g', t⟩ := p
+    by_cases hg : g' = g
+    · have hb : (g' == g) = true := by simpa using hg
+      have := hp (g', t) List.mem_cons_self hg
+      simp only [hb, if_true]
+      cases t with
+      | complete c => cases this
+      | part b =>
+        rw [tblsOf_cons_complete, tblsOf_cons_part, tablesGet_cons, ih]
+        show (tablesGet (tblsOf r) k).or (Layer.get J k) = _
+        rw [hJ]; simp
+    · have hb : (g' == g) = false := by simpa using hg
+      simp only [hb, Bool.false_eq_true, if_false]
+      cases t with
+      | complete c => rw [tblsOf_cons_complete, tblsOf_cons_complete, tablesGet_cons, tablesGet_cons, ih]
+      | part b => rw [tblsOf_cons_part, tblsOf_cons_part, ih]
+
+/-- an unfinished directory (no compaction directories around) that is seen to load as a legacy table showing logged
+keys only: still a good disk -/
+theorem hidden_good (x : Disk) (h : DiskOk x) (hc : x.comps = []) (g : Nat) (hg : (g, TableDir.part false) ∈ x.tables)
+    (j : Layer) :
+    Good3 x { x with tables := updT g (fun _ => .complete (restrictTo (applyMuts [] (walMuts x.wal)) j)) x.tables } := by
+  refine ⟨?_, ?_⟩
+  · refine { h with tblSorted := ?_, covered := ?_ }
+    · simp only [keys_updT]; exact h.tblSorted
+    · intro p hp hpm
+      have hp : p ∈ updT g (fun _ => .complete (restrictTo (applyMuts [] (walMuts x.wal)) j)) x.tables := hp
+      obtain ⟨q, hq, rfl⟩ := List.mem_map.1 hp
+      by_cases hid : q.1 = g
+      · have : (q.1 == g) = true := by simpa using hid
+        simp only [this, if_true] at hpm
+        cases hpm
+      · have : (q.1 == g) = false := by simpa using hid
+        simp only [this] at hpm ⊢
+        exact h.covered q hq hpm
+  · funext k
+    simp only [logical_eq, effTables, phase1, hc, List.foldl_nil]
+    unfold rd
+    cases hm : Layer.get (applyMuts [] (walMuts x.wal)) k with
+    | some v => cases v <;> rfl
+    | none =>
+      have hJ : Layer.get (restrictTo (applyMuts [] (walMuts x.wal)) j) k = none := by
+        cases hj : Layer.get (restrictTo (applyMuts [] (walMuts x.wal)) j) k with
+        | none => rfl
+        | some y => exact absurd hm (restrict_get _ j k (by rw [hj]; simp))
+      simp only
+      rw [tablesGet_upd_hidden g _ k hJ x.tables]
+      intro p hp hpg
+      rw [entry_unique h.tblSorted hg p hp hpg]; rfl
+
+/-- the extra states of `detour` are good, and the detour ends where the plain sequence ends -/
+theorem detour_run (junk : List (Nat × Layer)) (f : Nat) : ∀ (d : Disk), DiskOk d →
+    applyEvs d (detour junk d (cleanRun f d)) = applyEvs d (cleanRun f d) ∧
+    ∀ n, DiskOk (applyEvs d ((detour junk d (cleanRun f d)).take n)) ∧
+      logical (applyEvs d ((detour junk d (cleanRun f d)).take n)) = logical d := by
+  induction f with
+  | zero =>
+    intro d h
+    refine ⟨rfl, fun n => ?_⟩
+    simp only [cleanRun, detour, List.take_nil, applyEvs_nil]
+    exact ⟨h, trivial⟩
+  | succ f ih =>
+    intro d h
+    simp only [cleanRun]
+    cases he : cleanStep d with
+    | none =>
+      refine ⟨rfl, fun n => ?_⟩
+      simp only [detour, List.take_nil, applyEvs_nil]
+      exact ⟨h, trivial⟩
+    | some e =>
+      obtain ⟨h1, h2⟩ := cleanStep_ok d h e he
+      obtain ⟨ih1, ih2⟩ := ih (applyEv d e) h1
+      have hl1 : logical (applyEv d e) = logical d := logical_of_norm h2
+      -- the plain case: nothing inserted in front of `e`
+      have hplain : ∀ pre : List Ev, pre = [] →
+          applyEvs d (pre ++ e :: detour junk (applyEv d e) (cleanRun f (applyEv d e))) =
+            applyEvs d (e :: cleanRun f (applyEv d e)) ∧
+          ∀ n, DiskOk (applyEvs d ((pre ++ e :: detour junk (applyEv d e) (cleanRun f (applyEv d e))).take n)) ∧
+            logical (applyEvs d ((pre ++ e :: detour junk (applyEv d e) (cleanRun f (applyEv d e))).take n)) = logical d := by
+        intro pre hpre
+        subst hpre
+        simp only [List.nil_append, applyEvs_cons]
+        refine ⟨ih1, fun n => ?_⟩
+        cases n with
+        | zero => simp only [List.take_zero, applyEvs_nil]; exact ⟨h, trivial⟩
+        | succ n =>
+          rw [List.take_succ_cons, applyEvs_cons]
+          exact ⟨(ih2 n).1, (ih2 n).2.trans hl1⟩
+      -- one state inserted: the directory is seen as a legacy table
+      have hins : ∀ (g : Nat) (J : Layer), Good3 d (applyEv d (.tblLoadable g J)) →
+          applyEv (applyEv d (.tblLoadable g J)) e = applyEv d e →
+          applyEvs d ([Ev.tblLoadable g J] ++ e :: detour junk (applyEv d e) (cleanRun f (applyEv d e))) =
+            applyEvs d (e :: cleanRun f (applyEv d e)) ∧
+          ∀ n, DiskOk (applyEvs d (([Ev.tblLoadable g J] ++ e :: detour junk (applyEv d e) (cleanRun f (applyEv d e))).take n)) ∧
+            logical (applyEvs d (([Ev.tblLoadable g J] ++ e :: detour junk (applyEv d e) (cleanRun f (applyEv d e))).take n)) = logical d := by
+        intro g J hgood hback
+        simp only [List.singleton_append, applyEvs_cons, hback]
+        refine ⟨ih1, fun n => ?_⟩
+        cases n with
+        | zero => simp only [List.take_zero, applyEvs_nil]; exact ⟨h, trivial⟩
+        | succ n =>
+          rw [List.take_succ_cons, applyEvs_cons]
+          cases n with
+          | zero => simp only [List.take_zero, applyEvs_nil]; exact hgood
+          | succ n =>
+            rw [List.take_succ_cons, applyEvs_cons, hback]
+            exact ⟨(ih2 n).1, (ih2 n).2.trans hl1⟩
+      show applyEvs d (detour junk d (e :: cleanRun f (applyEv d e))) = _ ∧ _
+      simp only [detour]
+      rcases cleanStep_ctx d h e he with (⟨c, _, (rfl | rfl)⟩ | ⟨c, m, hcs, hm, hcase⟩ | ⟨hcs, g, hg, rfl⟩)
+      · exact hplain _ rfl
+      · exact hplain _ rfl
+      · rcases hcase with (⟨g, t, hgin, hgt, rfl⟩ | rfl)
+        · -- a table of the flagged compaction: whatever it is seen as, it is deleted again
+          have hgoodJ : ∀ J, Good3 d (applyEv d (.tblLoadable g J)) := by
+            intro J
+            obtain ⟨a1, a2⟩ := input_event_ok d h c m hcs hm g hgin (.tblLoadable g J) (Or.inr (Or.inr ⟨J, rfl⟩))
+            exact ⟨a1, logical_of_norm a2⟩
+          cases t with
+          | complete cells =>
+            show applyEvs d (detourPre junk d g ++ _) = _ ∧ _
+            cases hj : lookupJ junk g with
+            | none =>
+              have hpre : detourPre junk d g = [] := by unfold detourPre; rw [hj]
+              rw [hpre]; exact hplain _ rfl
+            | some j =>
+              have hpre : detourPre junk d g =
+                  [.tblLoadable g (if d.comps.isEmpty then restrictTo (applyMuts [] (walMuts d.wal)) j else j)] := by
+                unfold detourPre; rw [hj]
+              rw [hpre]
+              refine hins g _ (hgoodJ _) ?_
+              show ({ d with tables := updT g (TableDir.unlink true) (updT g (fun _ => .complete _) d.tables) } : Disk) =
+                { d with tables := updT g (TableDir.unlink true) d.tables }
+              rw [updT_updT]
+              congr 1
+              apply updT_congr
+              intro p hp hpg
+              rw [entry_unique h.tblSorted hgt p hp hpg]; rfl
+          | part b =>
+            cases b with
+            | true => exact hplain _ rfl
+            | false =>
+              show applyEvs d (detourPre junk d g ++ _) = _ ∧ _
+              cases hj : lookupJ junk g with
+              | none =>
+                have hpre : detourPre junk d g = [] := by unfold detourPre; rw [hj]
+                rw [hpre]; exact hplain _ rfl
+              | some j =>
+                have hpre : detourPre junk d g =
+                    [.tblLoadable g (if d.comps.isEmpty then restrictTo (applyMuts [] (walMuts d.wal)) j else j)] := by
+                  unfold detourPre; rw [hj]
+                rw [hpre]
+                refine hins g _ (hgoodJ _) ?_
+                show ({ d with tables := eraseT g (updT g (fun _ => .complete _) d.tables) } : Disk) =
+                  { d with tables := eraseT g d.tables }
+                rw [eraseT_updT']
+        · exact hplain _ rfl
+      · -- an unfinished table
+        show applyEvs d (detourPre junk d g ++ _) = _ ∧ _
+        cases hj : lookupJ junk g with
+        | none =>
+          have hpre : detourPre junk d g = [] := by unfold detourPre; rw [hj]
+          rw [hpre]; exact hplain _ rfl
+        | some j =>
+          have hce : d.comps.isEmpty = true := by rw [hcs]; rfl
+          have hpre : detourPre junk d g = [.tblLoadable g (restrictTo (applyMuts [] (walMuts d.wal)) j)] := by
+            unfold detourPre; rw [hj]; simp only [hce, if_true]
+          rw [hpre]
+          refine hins g _ (hidden_good d h hcs g hg j) ?_
+          show ({ d with tables := eraseT g (updT g (fun _ => .complete _) d.tables) } : Disk) =
+            { d with tables := eraseT g d.tables }
+          rw [eraseT_updT']
+
 /-! ## the whole recovery, interrupted anywhere -/
 
 /-- the event sequence of `Open` produces the disk `recover` computes -/
 theorem recover_events (d : Disk) (h : DiskOk d) (o : Opts) (d' : Disk) (s : State)
-    (hr : recover d o = .ok (d', s)) (junks : List Layer := []) : applyEvs d (recoverEvents d junks) = d' := by
+    (hr : recover d o = .ok (d', s)) (junk : List (Nat × Layer) := []) : applyEvs d (recoverEvents d junk) = d' := by
   rw [recover_eq d h] at hr
   unfold recoverEvents
-  rw [phase12_ok d h, applyEvs_append, cleanEvents_full d h]
-  exact (phase3_seg (norm d) (norm_clean d h) o d' s hr junks _ rfl).2
+  rw [phase12_ok d h, applyEvs_append]
+  have := (detour_run junk (mu d) d h).1
+  unfold cleanEvents
+  rw [this]
+  have hfull := cleanEvents_full d h
+  unfold cleanEvents at hfull
+  rw [hfull]
+  exact (phase3_seg (norm d) (norm_clean d h) o d' s hr _ rfl).2
 
 /-- after any prefix of the calls `Open` makes, the disk is well-formed and its recovery serves the same content -/
-theorem recover_prefix (d : Disk) (h : DiskOk d) (n : Nat) (junks : List Layer := []) :
-    DiskOk (applyEvs d ((recoverEvents d junks).take n)) ∧
-      logical (applyEvs d ((recoverEvents d junks).take n)) = logical d := by
+theorem recover_prefix (d : Disk) (h : DiskOk d) (n : Nat) (junk : List (Nat × Layer) := []) :
+    DiskOk (applyEvs d ((recoverEvents d junk).take n)) ∧
+      logical (applyEvs d ((recoverEvents d junk).take n)) = logical d := by
   obtain ⟨d', s, hr⟩ := recover_ok d h {}
   rw [recover_eq d h] at hr
   unfold recoverEvents
   rw [phase12_ok d h, List.take_append, applyEvs_append]
-  by_cases hn : n ≤ (cleanEvents d).length
-  · have : n - (cleanEvents d).length = 0 := by omega
+  obtain ⟨hd1, hd2⟩ := detour_run junk (mu d) d h
+  have hfull := cleanEvents_full d h
+  unfold cleanEvents at hfull ⊢
+  by_cases hn : n ≤ (detour junk d (cleanRun (mu d) d)).length
+  · have : n - (detour junk d (cleanRun (mu d) d)).length = 0 := by omega
     rw [this, List.take_zero, applyEvs_nil]
-    obtain ⟨h1, h2⟩ := cleanEvents_prefix d h n
-    exact ⟨h1, logical_of_norm h2⟩
-  · rw [List.take_of_length_le (by omega), cleanEvents_full d h]
-    obtain ⟨h1, h2⟩ := (phase3_seg (norm d) (norm_clean d h) {} d' s hr junks _ rfl).1 (n - (cleanEvents d).length)
+    exact hd2 n
+  · rw [List.take_of_length_le (by omega), hd1, hfull]
+    obtain ⟨h1, h2⟩ := (phase3_seg (norm d) (norm_clean d h) {} d' s hr _ rfl).1
+      (n - (detour junk d (cleanRun (mu d) d)).length)
     refine ⟨h1, h2.trans (logical_of_norm ?_)⟩
     exact norm_of_clean (norm_clean d h)
 
